@@ -28,6 +28,7 @@ Abs(a) == [tableid |-> a.tableid, ssi |-> a.ssi, priv |-> a.priv, protocol |-> a
 Pointer(n) == <<n>> \o [i \in 1..n |-> 255]
 Verdict(e) ==
   IF e.panic # "" THEN "panic"
+  ELSE IF ~e.earlier_same THEN "object-returned-earlier-reads-differently-after-a-later-call"
   ELSE LET s == Abs(e.abs) IN
   IF e.bytes # Pointer(e.ptr) \o SectionOf(s) THEN "harness-bad-bytes"
   ELSE IF s.tableid # 252 THEN (IF e.err # "tableid" THEN "unknown-table-id-not-rejected" ELSE "")
